@@ -680,14 +680,16 @@ class OrConstraint(AbstractConstraint):
 class _ConstrainedValue(Value):
     """Helper class, only used within a FunctionScope."""
 
-    definition_nodes: frozenset[Node]
+    # A tuple without duplicates rather than a set, so that the order in which
+    # the definitions are combined does not depend on object addresses.
+    definition_nodes: tuple[Node, ...]
     constraints: Sequence[Constraint]
     resolution_cache: dict[_LookupContext, Value] = field(
         default_factory=dict, init=False, compare=False, hash=False, repr=False
     )
 
 
-_empty_constrained = _ConstrainedValue(frozenset(), [])
+_empty_constrained = _ConstrainedValue((), [])
 
 
 @dataclass
@@ -1012,7 +1014,7 @@ class FunctionScope(Scope):
     name_to_current_definition_nodes: SubScope
     usage_to_definition_nodes: dict[tuple[Node, Varname], list[Node]]
     definition_node_to_value: dict[Node, Value]
-    name_to_all_definition_nodes: dict[Varname, set[Node]]
+    name_to_all_definition_nodes: dict[Varname, dict[Node, None]]
     name_to_composites: dict[Varname, set[CompositeVariable]]
     referencing_value_vars: dict[Varname, Value]
     accessed_from_special_nodes: set[Varname]
@@ -1034,7 +1036,8 @@ class FunctionScope(Scope):
         self.name_to_current_definition_nodes = defaultdict(list)
         self.usage_to_definition_nodes = defaultdict(list)
         self.definition_node_to_value = {_UNINITIALIZED: _empty_constrained}
-        self.name_to_all_definition_nodes = defaultdict(set)
+        # The values are used as insertion-ordered sets.
+        self.name_to_all_definition_nodes = defaultdict(dict)
         self.name_to_composites = defaultdict(set)
         self.referencing_value_vars = defaultdict(lambda: UNINITIALIZED_VALUE)
         # Names that are accessed from a None node context (e.g., from a nested function). These
@@ -1072,7 +1075,9 @@ class FunctionScope(Scope):
                 return
 
         varname = constraint.varname.get_varname()
-        def_nodes = frozenset(self.name_to_current_definition_nodes[varname])
+        def_nodes = tuple(
+            dict.fromkeys(self.name_to_current_definition_nodes[varname])
+        )
         # We set both a constraint and its inverse using the same node as the definition
         # node, so cheat and include the constraint itself in the key.
         node = (node, constraint)
@@ -1098,7 +1103,7 @@ class FunctionScope(Scope):
             else:
                 val = self.definition_node_to_value[definer]
                 if isinstance(val, _ConstrainedValue):
-                    pending |= val.definition_nodes
+                    pending.update(val.definition_nodes)
                 else:
                     out.add(definer)
         if not out:
@@ -1125,7 +1130,7 @@ class FunctionScope(Scope):
             # After we assign to a variable, reset any constraints on its
             # members.
             self.name_to_current_definition_nodes[composite] = []
-        self.name_to_all_definition_nodes[varname].add(node)
+        self.name_to_all_definition_nodes[varname][node] = None
         self._add_composite(varname)
         return frozenset([node])
 
@@ -1187,10 +1192,10 @@ class FunctionScope(Scope):
                 return EMPTY_ORIGIN
         return self._resolve_origin(definers)
 
-    def get_all_definition_nodes(self) -> dict[Varname, builtins.set[Node]]:
+    def get_all_definition_nodes(self) -> dict[Varname, list[Node]]:
         """Return a copy of name_to_all_definition_nodes."""
         return {
-            key: set(nodes) for key, nodes in self.name_to_all_definition_nodes.items()
+            key: list(nodes) for key, nodes in self.name_to_all_definition_nodes.items()
         }
 
     @contextlib.contextmanager
@@ -1219,11 +1224,12 @@ class FunctionScope(Scope):
         with self.subscope() as inner_scope:
             yield inner_scope
         new_defn_nodes = self.get_all_definition_nodes()
-        rest_scope = {
-            key: list(nodes - old_defn_nodes.get(key, set()))
-            for key, nodes in new_defn_nodes.items()
-            if key != LEAVES_SCOPE
-        }
+        rest_scope = {}
+        for key, nodes in new_defn_nodes.items():
+            if key == LEAVES_SCOPE:
+                continue
+            old_nodes = builtins.set(old_defn_nodes.get(key, ()))
+            rest_scope[key] = [node for node in nodes if node not in old_nodes]
         rest_scope = {key: nodes for key, nodes in rest_scope.items() if nodes}
         with self.subscope() as dummy_subscope:
             pass
